@@ -26,7 +26,7 @@ type specCtx struct {
 	blk     *ssa.BasicBlock
 	idx     int
 	bound   map[string]Term
-	capt    map[string]tv // addresses of captured variables (closure contracts)
+	capt    map[string]tv      // addresses of captured variables (closure contracts)
 	phiNext map[ssa.Value]Term // at a latch: the value each header phi takes on this back edge
 	inIter  bool
 	iterHdr *ssa.BasicBlock
@@ -908,7 +908,7 @@ func (c *specCtx) callExpr(x *ast.CallExpr) (tv, error) {
 		if k.Sort != *g.Key {
 			return tv{}, fmt.Errorf("ghost %s: key sort %s, want %s", name, k.Sort, *g.Key)
 		}
-		if name == "chsent" && k.ty != nil {
+		if (name == "chsent" || name == "chrecvd") && k.ty != nil {
 			key = vc.keyGhostChan(g, k.ty)
 		}
 		return tv{Term{fmt.Sprintf("(select %s %s)", vc.cur(c.st, key), k.S), g.Val}, nil}, nil
